@@ -511,6 +511,13 @@ package stdlib
 //@   ensures [years] !ispart(str_lower(name), "nanos") && !ispart(str_lower(name), "seconds") && !ispart(str_lower(name), "minutes") && !ispart(str_lower(name), "hours") && !ispart(str_lower(name), "days") && !ispart(str_lower(name), "months") && ispart(str_lower(name), "years") ==> result == "2006"
 //@   ensures [unknown] (result == "") == (!ispart(str_lower(name), "nanos") && !ispart(str_lower(name), "seconds") && !ispart(str_lower(name), "minutes") && !ispart(str_lower(name), "hours") && !ispart(str_lower(name), "days") && !ispart(str_lower(name), "months") && !ispart(str_lower(name), "years"))
 
+// timeattr reads its argument as unix seconds (base-10 int64, else the error marker), takes that
+// instant with zero nanoseconds in the requested zone, and applies the attribute function to it
+//@ func kfTimeAttr$1
+//@   assert at "return ErrorNum" : !int_ok(app((*args)[0], context))
+//@   assert at "return attrFunc(t)" : int_ok(app((*args)[0], context))
+//@   assert at "t := time.Unix(" : $arg0 == atoi(app((*args)[0], context)) && $arg1 == 0
+//@   assert at "0).In(" : $arg1 == *tz
 // buckettime prints the parsed instant with exactly the layout its bucket name stands for
 //@ func kfBucketTime$1
 //@   assert at "return t.Format(" : $arg1 == *bucketFormat
